@@ -295,6 +295,14 @@ def r3_who_may_write(chk):
                             continue  # element assignment keeps the shape
                         if recv.endswith("._parent") and owner == "Conformer":
                             continue
+                        # a method of a class below the owner fills the bond table of an object it has just built, doing the owner's
+                        # bookkeeping itself: every element is made with `parent=<that object>` (evolve / Bond), from one comprehension
+                        if base.attr == "_bonds" and isinstance(s, ast.Assign) and isinstance(t, ast.Attribute) and isinstance(s.value, ast.ListComp) \
+                                and f.cls is not None and any(c_.name in ALLOWED_WRITERS[base.attr] for c_ in prog.mro(f.cls)):
+                            e_ = s.value.elt
+                            pk = [k.value for k in e_.keywords if k.arg == "parent"] if isinstance(e_, ast.Call) else []
+                            if pk and norm(pk[0]) == recv and (norm(e_.func).endswith(".evolve") or norm(e_.func) == "Bond"):
+                                continue
                         _r3_report(chk, f, s, f"{recv}.{base.attr}", f"`{short(s, 60)}` rebinds {base.attr} outside its owner class")
                         found = True
             if isinstance(s, ast.Call) and isinstance(s.func, ast.Attribute) and s.func.attr in MUTATORS and isinstance(s.func.value, ast.Attribute):
